@@ -117,6 +117,8 @@ pub enum Take {
     Nth(usize),
     /// `k` calls of `next()`, then `Iterator::last()` on what is left
     NextLast(usize),
+    /// `k` calls of `next()`, then `std::mem::forget` of the chunk iterator (no destructor runs for it)
+    NextForget(usize),
     /// consume everything through `Iterator::fold` (what the caller receives is recorded as with `all`)
     Fold,
     /// consume everything through `Iterator::count` (every element is discarded by the iterator's consumer)
@@ -134,6 +136,8 @@ fn take_of(s: &str, what: &str, ln: usize) -> Result<Take, String> {
         Ok(Take::All)
     } else if let Some(k) = s.strip_suffix("+last") {
         num::<usize>(k, what, ln).map(Take::NextLast)
+    } else if let Some(k) = s.strip_suffix("+forget") {
+        num::<usize>(k, what, ln).map(Take::NextForget)
     } else if let Some((k, j)) = s.split_once("+nth:") {
         Ok(Take::NextNth(num::<usize>(k, what, ln)?, num::<usize>(j, what, ln)?))
     } else if let Some(k) = s.strip_prefix("nth:") {
